@@ -424,6 +424,18 @@ Proof.
   split; [exists lit, n, d; auto|]. now apply const_rune_disagree.
 Qed.
 
+(** one literal denotes at most one integer: a table shared by platforms on which the constant has
+    different values (math.MaxInt, strconv.IntSize, ...) is wrong on all of them but one *)
+Theorem const_int_functional z1 z2 t lit n d : parse_literal t lit = Some (n, d) -> d <> 0 ->
+  const_g (KUInt z1) t lit = true -> const_g (KUInt z2) t lit = true -> z1 = z2.
+Proof.
+  cbn [const_g]. intros E Hd H1 H2.
+  apply andb_true_iff in H1. destruct H1 as [_ H1]. apply andb_true_iff in H2. destruct H2 as [_ H2].
+  unfold oq_eqb in H1, H2. rewrite E in H1, H2. unfold q_eqb in H1, H2; simpl in H1, H2.
+  apply Z.eqb_eq in H1. apply Z.eqb_eq in H2.
+  apply Z.mul_reg_r with (p := d); [assumption|]. congruence.
+Qed.
+
 (* ------------------------------------------------------------------ *)
 (** * G as a relation: what it means for a bound expression to denote an object *)
 
